@@ -19,6 +19,7 @@ pub const DENOM: &str = "stake";
 
 /// callers: the initial admin, a second admin candidate, a stranger
 pub const CALLERS: [&str; 3] = ["AD", "AD2", "X"];
+/// default hook addresses; a configuration may instead name callers or stakers as hooks
 pub const HOOKS: [&str; 3] = ["H1", "H2", "H3"];
 pub const MEMBERS: [&str; 3] = ["A", "B", "C"];
 pub const STAKERS: [&str; 2] = ["U1", "U2"];
@@ -58,7 +59,7 @@ pub struct State {
     pub dead: bool,
 }
 
-fn admin_hooks_agree(r: &Ref, o: &Obs, out: &mut Vec<Violation>) {
+fn admin_hooks_agree(hk: &[&'static str], r: &Ref, o: &Obs, out: &mut Vec<Violation>) {
     let want_admin = r.admin.map(|i| a(CALLERS[i as usize]));
     if o.admin != want_admin {
         out.push(Violation::new(
@@ -68,12 +69,12 @@ fn admin_hooks_agree(r: &Ref, o: &Obs, out: &mut Vec<Violation>) {
     }
     let mut got = o.hooks.clone();
     got.sort();
-    let mut want: Vec<String> = r.hooks.iter().map(|h| a(HOOKS[*h as usize])).collect();
+    let mut want: Vec<String> = r.hooks.iter().map(|h| a(hk[*h as usize])).collect();
     want.sort();
     if got != want {
         out.push(Violation::new(
             "C14.hooks_are_what_the_admins_made_them",
-            format!("Hooks query {:?}, the admins' calls give {:?}", o.hooks, r.hooks.iter().map(|h| HOOKS[*h as usize]).collect::<Vec<_>>()),
+            format!("Hooks query {:?}, the admins' calls give {:?}", o.hooks, r.hooks.iter().map(|h| hk[*h as usize]).collect::<Vec<_>>()),
         ));
     }
 }
@@ -118,8 +119,8 @@ pub struct GroupCfg {
     pub remove_lists: Vec<Vec<u8>>,
     /// callers that try UpdateMembers with the full alphabet (others get a reduced one)
     pub full_callers: Vec<u8>,
-    /// how many of HOOKS are in the alphabet
-    pub n_hooks: u8,
+    /// labels of the addresses offered to AddHook/RemoveHook (may include the admins themselves)
+    pub hooks: Vec<&'static str>,
     pub hmax: u64,
 }
 
@@ -138,7 +139,7 @@ pub struct GroupAdmin {
 
 impl GroupAdmin {
     fn check_ref(&self, r: &Ref, o: &Obs, out: &mut Vec<Violation>) {
-        admin_hooks_agree(r, o, out);
+        admin_hooks_agree(&self.cfg.hooks, r, o, out);
         let want: BTreeMap<String, u64> = r.members.iter().map(|(i, w)| (a(MEMBERS[*i as usize]), *w)).collect();
         if o.members != want {
             out.push(Violation::new(
@@ -198,7 +199,7 @@ impl Model for GroupAdmin {
             out.push(GAct::UpdateAdmin { by, new: None });
             out.push(GAct::UpdateAdmin { by, new: Some(0) });
             out.push(GAct::UpdateAdmin { by, new: Some(1) });
-            for hook in 0..cfg.n_hooks {
+            for hook in 0..cfg.hooks.len() as u8 {
                 out.push(GAct::AddHook { by, hook });
                 out.push(GAct::RemoveHook { by, hook });
             }
@@ -244,9 +245,9 @@ impl Model for GroupAdmin {
                 "UpdateAdmin",
                 cw4_group::msg::ExecuteMsg::UpdateAdmin { admin: new.map(|i| a(CALLERS[i as usize])) },
             ),
-            GAct::AddHook { by, hook } => (*by, "AddHook", cw4_group::msg::ExecuteMsg::AddHook { addr: a(HOOKS[*hook as usize]) }),
+            GAct::AddHook { by, hook } => (*by, "AddHook", cw4_group::msg::ExecuteMsg::AddHook { addr: a(self.cfg.hooks[*hook as usize]) }),
             GAct::RemoveHook { by, hook } => {
-                (*by, "RemoveHook", cw4_group::msg::ExecuteMsg::RemoveHook { addr: a(HOOKS[*hook as usize]) })
+                (*by, "RemoveHook", cw4_group::msg::ExecuteMsg::RemoveHook { addr: a(self.cfg.hooks[*hook as usize]) })
             }
             GAct::Update { by, add, remove } => (
                 *by,
@@ -331,7 +332,8 @@ pub struct StakeCfg {
     pub min_bond: u128,
     pub funds: Vec<u128>,
     pub amounts: Vec<u128>,
-    pub n_hooks: u8,
+    /// labels of the addresses offered to AddHook/RemoveHook (may include a staker)
+    pub hooks: Vec<&'static str>,
     pub hmax: u64,
 }
 
@@ -388,7 +390,7 @@ impl Model for StakeAdmin {
             }
         };
         if v.is_empty() {
-            admin_hooks_agree(&r, &obs, &mut v);
+            admin_hooks_agree(&cfg.hooks, &r, &obs, &mut v);
         }
         let dead = !v.is_empty();
         (State { w, r, obs: Arc::new(obs), dead }, v)
@@ -404,7 +406,7 @@ impl Model for StakeAdmin {
             out.push(SAct::UpdateAdmin { by, new: None });
             out.push(SAct::UpdateAdmin { by, new: Some(0) });
             out.push(SAct::UpdateAdmin { by, new: Some(1) });
-            for hook in 0..cfg.n_hooks {
+            for hook in 0..cfg.hooks.len() as u8 {
                 out.push(SAct::AddHook { by, hook });
                 out.push(SAct::RemoveHook { by, hook });
             }
@@ -447,10 +449,10 @@ impl Model for StakeAdmin {
                 vec![],
             ),
             SAct::AddHook { by, hook } => {
-                (a(CALLERS[*by as usize]), Some(*by), "AddHook", X::AddHook { addr: a(HOOKS[*hook as usize]) }, vec![])
+                (a(CALLERS[*by as usize]), Some(*by), "AddHook", X::AddHook { addr: a(self.cfg.hooks[*hook as usize]) }, vec![])
             }
             SAct::RemoveHook { by, hook } => {
-                (a(CALLERS[*by as usize]), Some(*by), "RemoveHook", X::RemoveHook { addr: a(HOOKS[*hook as usize]) }, vec![])
+                (a(CALLERS[*by as usize]), Some(*by), "RemoveHook", X::RemoveHook { addr: a(self.cfg.hooks[*hook as usize]) }, vec![])
             }
             SAct::Bond { u, amt } => (a(STAKERS[*u as usize]), None, "Bond", X::Bond {}, coins(amt.0, DENOM)),
             SAct::Unbond { u, amt } => {
@@ -494,7 +496,7 @@ impl Model for StakeAdmin {
                     SAct::RemoveHook { hook, .. } => r.hooks.retain(|h| h != hook),
                     _ => {}
                 }
-                admin_hooks_agree(&r, &obs, &mut v);
+                admin_hooks_agree(&cfg.hooks, &r, &obs, &mut v);
             }
             let msgs = out.top.as_ref().map(|t| t.messages.clone()).unwrap_or_default();
             let listed: BTreeSet<String> = match act {
